@@ -314,6 +314,6 @@ func CheckC08(c *C08Case, st *Stats) error {
 
 func init() {
 	Register("C08",
-		"trees (depth >= 2 favoured; one in five turned into a DAG by storing one reachable container a second time) are cloned; then 1-12 mutations are applied at a drawn container of a drawn side (original or clone): Add, Insert, Replace, Delete, Pop, Clear, Reverse, Sort (in domain), Set, Unset, Clear, and SetTF/UnsetTF from the root with well-formed paths. Oracle: clone.Equals(orig) both ways; snapshot content equal; the sets of container identities reachable from the two roots are disjoint; Clone leaves the receiver unchanged; after every mutation the OTHER side's snapshot (content bits and identities) equals its snapshot before the mutation. Non-trivial = tree with a nested container at depth >= 2 and at least one applied mutation on a non-root container. Distinct = distinct FNV-64a hash of the case JSON.",
+		"trees (depth >= 2 favoured; chains up to 70 levels; built through drawn construction routes; one in five turned into a DAG by storing one reachable container a second time; one in five with nested containers that are user-defined derived types) are cloned; then 1-12 mutations are applied at a drawn container of a drawn side (original or clone): Add, Insert, Replace, Delete, Pop, Clear, Reverse, Sort (in domain), Set, Unset, Clear, and SetTF/UnsetTF from the root with well-formed paths. Oracle: clone.Equals(orig) both ways; snapshot content equal; the sets of container identities reachable from the two roots are disjoint; Clone leaves the receiver unchanged; after every mutation the OTHER side's snapshot (content bits and identities) equals its snapshot before the mutation. Non-trivial = tree with a nested container at depth >= 2 and at least one applied mutation on a non-root container. Distinct = distinct FNV-64a hash of the case JSON.",
 		GenC08, CheckC08)
 }
